@@ -727,6 +727,12 @@ pub fn batch(prop: &dyn Property, opts: &BatchOpts) -> i32 {
             "real_vs_stub": prop.real_vs_stub(),
         },
     });
+    let mut ev = ev;
+    for k in ["programs", "disagreements_checked"] {
+        if let Some(v) = other.get(k) {
+            ev["coverage"][k] = json!(v);
+        }
+    }
     if opts.write_evidence {
         let dir = verif_root().join("evidence");
         let _ = std::fs::create_dir_all(&dir);
